@@ -57,6 +57,8 @@ pub enum TAct {
     Provide { user: String, shape: String },
     Withdraw { user: String, part: String },
     Swap { user: String, from: usize, to: usize, amount: String },
+    /// a swap or deposit whose message declares a tenth of a native reserve while one unit of it is attached
+    Underfunded { user: String, what: String },
     Collect { user: String },
     SetFees { idx: usize },
     Ramp { kind: String, dblocks: u64 },
@@ -304,6 +306,10 @@ impl Scenario for TrioScn {
                 }
             }
             if !c07 {
+                v.push(TAct::Underfunded { user: BOB.to_string(), what: "swap".to_string() });
+                v.push(TAct::Underfunded { user: BOB.to_string(), what: "provide".to_string() });
+            }
+            if !c07 {
                 v.push(TAct::Swap { user: BOB.to_string(), from: 0, to: 2, amount: (res[0] / 100).max(2).to_string() });
                 v.push(TAct::Swap { user: CAROL.to_string(), from: 2, to: 1, amount: (res[2] / 100).max(2).to_string() });
             }
@@ -414,6 +420,57 @@ impl Scenario for TrioScn {
                     Err(e) => {
                         cx.count("withdraw:rejected");
                         cx.note(|| format!("rejected: {}", e.msg()));
+                    }
+                }
+            }
+            TAct::Underfunded { user, what } => {
+                pool_op = false;
+                let (res, _) = pre.unwrap();
+                // asset 0 is always native
+                let denom0 = match &t.assets[0] {
+                    AssetInfo::NativeToken { denom } => denom.clone(),
+                    _ => return,
+                };
+                let ub: Vec<u128> = t.assets.iter().map(|a| info_balance(w, a, user)).collect();
+                let lpb = w.cw20_balance(&t.lp, user);
+                let declared = (res[0] / 10).max(2);
+                let r = if what == "swap" {
+                    w.exec(
+                        user,
+                        &t.addr,
+                        &TrioExec::Swap { offer_asset: asset(&t.assets[0], declared), ask_asset: t.assets[1].clone(), belief_price: loose_belief(), max_spread: Some(Decimal::percent(50)), to: None },
+                        &[coin(1, &denom0)],
+                    )
+                } else {
+                    let d = [declared, (res[1] / 10).max(2), (res[2] / 10).max(2)];
+                    let assets = [asset(&t.assets[0], d[0]), asset(&t.assets[1], d[1]), asset(&t.assets[2], d[2])];
+                    let mut funds = vec![];
+                    for a in t.assets.iter() {
+                        match a {
+                            AssetInfo::NativeToken { denom } => funds.push(coin(1, denom)),
+                            AssetInfo::Token { contract_addr } => w.cw20_allow(contract_addr, user, &t.addr, d[2]),
+                        }
+                    }
+                    funds.sort_by(|a, b| a.denom.cmp(&b.denom));
+                    w.exec(user, &t.addr, &TrioExec::ProvideLiquidity { assets, slippage_tolerance: None, receiver: None }, &funds)
+                };
+                let ua: Vec<u128> = t.assets.iter().map(|a| info_balance(w, a, user)).collect();
+                match &r {
+                    Ok(_) => {
+                        cx.count("underfunded:accepted");
+                        let gained_lp = w.cw20_balance(&t.lp, user) - lpb;
+                        let paid0 = ub[0] - ua[0];
+                        cx.check("funds.declared_native_amount_was_attached", paid0 == declared, || {
+                            format!("{} declaring {} of the native asset with 1 unit attached was accepted: user paid {}, received {:?}, LP +{}", what, declared, paid0, (ua[1].saturating_sub(ub[1]), ua[2].saturating_sub(ub[2])), gained_lp)
+                        });
+                    }
+                    Err(_) => {
+                        cx.count("underfunded:rejected");
+                        for a in t.assets.iter() {
+                            if let AssetInfo::Token { contract_addr } = a {
+                                let _ = w.exec(user, contract_addr, &cw20::Cw20ExecuteMsg::DecreaseAllowance { spender: t.addr.clone(), amount: Uint128::new(u128::MAX), expires: None }, &[]);
+                            }
+                        }
                     }
                 }
             }
